@@ -24,7 +24,8 @@ for op in _wide + _narrow:
                   bounds="unwind 4 (also bounds Ast::eval recursion; real depth 2); kind pairs (Int,Int), ('a','b'), (Null,Int), (Int,'a')",
                   functions=["expr::Ast::eval", "expr::BinOp::eval", "table::Row::index", "value::Value::to_bool"]))
     for suf in (["_k0", "_k1", "_k2", "_k3", "_k4"] if op in _wide else [""]):
-        _c13.append(H("proofs::c13::c13_fold_" + op + suf, timeout=600, mem_gb=6 if op == "add" else 3, symbolic=_SYM13 + "; literal operands, folded at construction",
+        _c13.append(H("proofs::c13::c13_fold_" + op + suf, tier="thorough" if suf in ("_k0", "_k2", "_k4") and op != "add" else "quick",
+                      timeout=600, mem_gb=6 if op == "add" else 3, symbolic=_SYM13 + "; literal operands, folded at construction",
                       bounds="unwind 4; %s" % ("left kind fixed, 5 right kinds" if op in _wide else "9 kind pairs {Null,Int,'a'}^2"),
                       functions=["expr::Expr::binop", "expr::BinOp::eval"]))
 for n in ["c13_ordering_consistent", "c13_unop_neg", "c13_unop_bitnot", "c13_unop_boolnot", "c13_and_or",
@@ -55,8 +56,10 @@ PROPS["C13"] = {
 # ---------------------------------------------------------------- C18
 PROPS["C18"] = {
     "level": "model_checking",
-    "engine": "mir-smt",
+    "engine": "mir-smt+kani",
     "mir": True,
+    "kani": [Harness("proofs::propset::c18_timestamp_io", timeout=300, symbolic="the 64-bit tick count", bounds="8 bytes; unwind 10",
+                     functions=["timestamp::Timestamp::write_to", "timestamp::Timestamp::read_from"])],
     "technique": "symbolic execution of the MIR of the four timestamp conversion functions into SMT-LIB2 over "
                  "integers with range side conditions; z3 decides each law, cvc5 must agree",
     "claim": "For the MIR of timestamp_from_system_time, system_time_from_timestamp, duration_to_timestamp_delta and "
@@ -116,19 +119,25 @@ def _layouts():
 
 # ---------------------------------------------------------------- C01
 PROPS["C01"] = {
-    "level": "model_checking", "engine": "kani",
-    "technique": "bounded model checking (Kani/CBMC) of the serialisation kernels: write->read identity per cell and "
-                 "reference, written row block and pool image against an independent format description",
+    "level": "model_checking", "engine": "kani+mir-smt", "mir": True,
+    "technique": "bounded model checking (Kani/CBMC) of the serialisation kernels (write->read identity per cell and "
+                 "reference, written row block and pool image against an independent format description) + symbolic "
+                 "execution of the MIR of Package's persistence protocol (dirty flags, finisher, flush/into_inner/Drop) "
+                 "with cfb and the kernel writers as uninterpreted failing events, decided by z3/cvc5",
     "claim": "Bounded model checking of the kernels a save/reopen goes through: every cell value valid for its column "
              "is read back identically (all 16/32-bit integers, all reference numbers, both reference widths); "
              "Table::write_rows emits exactly the column-major block of the format description for all cell contents "
              "of <=2x2 tables; write_pool/write_data emit exactly the described image of the pool state and the "
              "reader maps such images back to that state; interning a string value keeps the pool invariant (the "
-             "empty string is stored as null). Composition through Package/cfb, close modes and crash points are "
-             "outside the claim.",
+             "empty string is stored as null). Above the kernels, from an arbitrary state of the dirty flags: every "
+             "mutating entry point arms the finisher and marks what it dirtied; FinishImpl::finish rewrites exactly the "
+             "dirty streams through truncating create_stream, clears a flag only after its writes succeeded and returns Ok "
+             "only if every step did; flush / into_inner / Drop run the armed finisher, propagate its error and (flush) the "
+             "container's flush result. cfb itself, Package::open and multi-step histories are outside the claim.",
     "note": "Trusted: Kani/CBMC, the format description re-implemented in the harnesses. Outside: FinishImpl::finish, "
-            "flush/into_inner/Drop, Package::open's catalogue reconstruction, Table::read_rows (measured out of reach), "
-            "strings other than '', 'a', 'b', code pages other than US-ASCII, histories longer than one step.",
+            "Package::open's catalogue reconstruction, Table::read_rows (measured out of reach), the cfb container (its "
+            "calls are uninterpreted events that may fail), strings other than '', 'a', 'b', code pages other than "
+            "US-ASCII, histories longer than one step. Protocol models are listed in the evidence.",
     "kani": _cell_roundtrips() + _layouts() + [
         H(_POOL + "c01_pool_image_ab", timeout=600, symbolic="reference counts (u16) of a 2-entry pool, texts 'a','b' concrete",
           bounds="2 entries; unwind 8", functions=["stringpool::StringPool::write_pool", "stringpool::StringPool::write_data", "codepage::ascii_encode"]),
@@ -240,9 +249,10 @@ PROPS["C08"] = {
 
 # ---------------------------------------------------------------- C15
 PROPS["C15"] = {
-    "level": "model_checking", "engine": "kani",
+    "level": "model_checking", "engine": "kani+mir-smt", "mir": True,
     "technique": "bounded model checking (Kani/CBMC) of the generic writer kernels with the medium replaced by a "
-                 "nondeterministic buffered writer: the fault schedule is a symbolic variable",
+                 "nondeterministic buffered writer: the fault schedule is a symbolic variable; MIR-level protocol of "
+                 "finish/flush/into_inner/Drop with every container call an event that may fail (z3/cvc5)",
     "claim": "For write_rows, write_pool, write_data and PropertySet::write, instantiated with a writer that has the "
              "contract of cfb::Stream (buffering, flush may fail, Drop flushes and discards the error) and whose every "
              "write/flush call may fail nondeterministically: whenever the kernel returns Ok, every accepted byte has "
@@ -265,7 +275,7 @@ PROPS["C15"] = {
 # ---------------------------------------------------------------- C10
 _C10_SHAPES = ["empty", "a", "ab", "abc", "abcd", "e1", "e1a", "e2", "e2a", "cjk", "cjk2a"]
 PROPS["C10"] = {
-    "level": "model_checking", "engine": "kani",
+    "level": "model_checking", "engine": "kani+mir-smt", "mir": True,
     "technique": "bounded model checking (Kani/CBMC) of PropertyValue::write vs. the size the offset table is computed "
                  "from (through the msi_verif hook), the code-page property for all 26 code pages, and C18's timestamp laws",
     "claim": "Per property value: the bytes PropertyValue::write emits equal the size PropertySet::write uses for the "
@@ -412,7 +422,8 @@ PROPS["C17"] = {
     "note": "Trusted: Kani/CBMC; the list of well-known identifier/tag pairs in kani/src/proofs/c17.rs (from the Windows "
             "language-identifier reference). Outside: tags longer than 5 bytes in the stability harness, non-ASCII tags, "
             "arbitrary symbolic tags through from_tag's 127-entry scan (measured: 10 min / 9 GB per length class).",
-    "kani": [H("proofs::c17::" + n, timeout=900, symbolic="the 16-bit code (code_preserved, tag_total); none for the concrete-tag harnesses",
+    "kani": [H("proofs::c17::" + n, timeout=1200, mem_gb=10 if n == "c17_regional_tag_unique" else 3,
+               symbolic="the 16-bit code (code_preserved, tag_total, two codes for regional_tag_unique); none for the concrete-tag harnesses",
                bounds="unwind 14 (binary searches) / 130 (table scan on concrete tags)", functions=["language::Language::from_code", "language::Language::tag", "language::Language::from_tag", "language::Language::code"])
              for n in _C17Q]
     + [H("proofs::c17::c17_stable_len%d" % L, tier="thorough", timeout=3000, mem_gb=12, symbolic="the 16-bit code, restricted to tags of length %d" % L,
